@@ -242,11 +242,77 @@ func oracleC03(r *OpRun) {
 			simrt.Count("probe:queue-with-several-executions")
 		}
 	}
-	// Q4 independence: a task that became head of an idle queue starts within a second of
-	// simulated time whatever other queues do (hooks without settings)
+	// Q3: a binding's tasks are placed in the queue named by its `queue` setting
 	for _, a := range r.o.Arrivals {
-		if a.Waited > queue.DefaultDelayOnQueueIsEmpty+queue.DefaultWaitLoopCheckInterval*2+1e9 && a.IdleHead {
-			r.e.Viol("C03", "Q4", "idle-queue-delayed", "queue %q was idle with no back-off pending, task for %s arrived at %v and started only %v later", a.Queue, a.Hook, a.At, a.Waited)
+		if a.Queue == "-" {
+			continue
+		}
+		b := r.sc.bind(a.Hook, a.Binding)
+		if b == nil {
+			continue
+		}
+		want := "main"
+		if b.Kube != nil {
+			want = b.Kube.effQueue()
+		} else if b.Sched.Queue != "" {
+			want = b.Sched.Queue
+		}
+		if a.Queue != want {
+			r.e.Viol("C03", "Q3", "wrong-queue", "task for binding %s of %s (%s) was created for queue %q, the binding names %q", a.Binding, a.Hook, a.Ctx, a.Queue, want)
+		}
+	}
+	// Q3 order: per queue, Event contexts are first executed in the order their tasks were created
+	if r.quiet {
+		arrived := map[string][]string{}
+		for _, a := range r.o.Arrivals {
+			if a.Kind == "kube" && strings.Contains(a.Ctx, "@") && a.Group == "" {
+				arrived[a.Queue] = append(arrived[a.Queue], a.Hook+"|"+a.Ctx)
+			}
+		}
+		first := map[string][]string{}
+		seenCtx := map[string]bool{}
+		for _, x := range r.o.Execs {
+			for _, c := range x.Ctxs {
+				if c.Type != "Event" || c.Obj == nil || !c.Obj.HasObject {
+					continue
+				}
+				id := x.Hook + "|" + c.Binding + "/Event/" + c.WatchEvent + "/" + c.Obj.NS + "/" + c.Obj.Name + "@" + fmt.Sprint(c.Obj.RV)
+				if seenCtx[id] {
+					continue
+				}
+				seenCtx[id] = true
+				q := r.ctxQueue(x.Hook, c)
+				first[q] = append(first[q], id)
+			}
+		}
+		for q, got := range first {
+			// restrict the arrival order to contexts that were executed (dropped ones: allowFailure, compaction)
+			exec := map[string]bool{}
+			for _, id := range got {
+				exec[id] = true
+			}
+			var want []string
+			for _, id := range arrived[q] {
+				if exec[id] {
+					want = append(want, id)
+				}
+			}
+			// combining moves contexts of one hook forward over tasks of other hooks only when they are
+			// adjacent, so per hook the order is exact
+			perHook := func(l []string) map[string][]string {
+				m := map[string][]string{}
+				for _, id := range l {
+					h := id[:strings.Index(id, "|")]
+					m[h] = append(m[h], id)
+				}
+				return m
+			}
+			gw, ww := perHook(got), perHook(want)
+			for h := range ww {
+				if len(gw[h]) == len(ww[h]) && fmt.Sprint(gw[h]) != fmt.Sprint(ww[h]) {
+					r.e.Viol("C03", "Q3", "order", "queue %q, hook %s: contexts first executed in order %v, their tasks were created in order %v", q, h, gw[h], ww[h])
+				}
+			}
 		}
 	}
 }
@@ -605,6 +671,87 @@ func oracleC11(r *OpRun) {
 			}
 		}
 	}
+	// each firing produces exactly one task for every enabled schedule binding with that crontab
+	type batch struct {
+		crontab string
+		seq     int64
+		tasks   []Arrival
+	}
+	var batches []*batch
+	byN := map[int]*batch{}
+	for _, a := range r.o.Arrivals {
+		if !strings.HasPrefix(a.Kind, "schedule:") {
+			continue
+		}
+		bt := byN[a.Batch]
+		if bt == nil {
+			bt = &batch{crontab: strings.TrimPrefix(a.Kind, "schedule:"), seq: a.Seq}
+			byN[a.Batch] = bt
+			batches = append(batches, bt)
+		}
+		if a.Queue != "-" {
+			bt.tasks = append(bt.tasks, a)
+		}
+	}
+	enabled := map[string]bool{} // hook -> its schedule bindings have been seen enabled
+	for _, bt := range batches {
+		simrt.Count("probe:schedule-firing-handled")
+		seen := map[string]bool{}
+		for _, a := range bt.tasks {
+			k := a.Hook + "|" + a.Binding
+			b := r.sc.bind(a.Hook, a.Binding)
+			if b == nil || b.Sched == nil {
+				r.e.Viol("C11", "T3", "task-for-unknown-binding", "firing of %q produced a task for %s which is not a schedule binding", bt.crontab, k)
+				continue
+			}
+			if b.Sched.Crontab != bt.crontab {
+				r.e.Viol("C11", "T3", "task-for-other-crontab", "firing of %q produced a task for %s whose crontab is %q", bt.crontab, k, b.Sched.Crontab)
+			}
+			if seen[k] {
+				r.e.Viol("C11", "T1", "duplicate-task", "firing of %q produced more than one task for %s", bt.crontab, k)
+			}
+			seen[k] = true
+			wantQ := b.Sched.Queue
+			if wantQ == "" {
+				wantQ = "main"
+			}
+			if a.Queue != wantQ || a.Group != b.Sched.Group || a.Allow != b.Sched.AllowFailure || fmt.Sprint(a.Snapshots) != fmt.Sprint(expectedSnapshotKeysUnsorted(r.hookSpec(a.Hook), b.Sched)) {
+				r.e.Viol("C11", "T5", "task-attributes", "task for %s carries queue=%q group=%q allowFailure=%v snapshots=%v; the binding declares queue=%q group=%q allowFailure=%v includeSnapshotsFrom=%v", k, a.Queue, a.Group, a.Allow, a.Snapshots, wantQ, b.Sched.Group, b.Sched.AllowFailure, b.Sched.IncludeSnapshots)
+			}
+		}
+		for _, h := range r.sc.Hooks {
+			for _, sb := range h.Sched {
+				if sb.Crontab != bt.crontab {
+					continue
+				}
+				if enabled[h.Path] && !seen[h.Path+"|"+sb.Name] {
+					r.e.Viol("C11", "T2", "binding-without-task", "firing of %q produced no task for enabled binding %s of %s (tasks: %d)", bt.crontab, sb.Name, h.Path, len(bt.tasks))
+				}
+			}
+		}
+		for _, a := range bt.tasks {
+			enabled[a.Hook] = true
+		}
+	}
+}
+
+// includeSnapshotsFrom as carried by a schedule task: the declared list, extended by the group's kubernetes bindings
+func expectedSnapshotKeysUnsorted(h *HookSpec, sb *SchedBinding) []string {
+	out := append([]string(nil), sb.IncludeSnapshots...)
+	if sb.Group != "" {
+		for _, m := range groupMembers(h, sb.Group) {
+			dup := false
+			for _, x := range out {
+				if x == m {
+					dup = true
+				}
+			}
+			if !dup {
+				out = append(out, m)
+			}
+		}
+	}
+	return out
 }
 
 // headMayAllowFailure: the first context of the execution belongs to a binding that allows failure
